@@ -179,5 +179,22 @@ def stepOp (b : SBag) : Op → Option SBag × String
     if site < 0 || site ≥ b.length then (some b, "err") else
     if (firstNamed name b.rows).isNone then (some b, "err") else
     (some { b with rows := updateFirst name (fun s => s.set site.toNat c) b.rows }, "ok")
+  | .rmGapSites num den ends =>
+    -- a site qualifies when its number of gaps meets the cutoff `num/den` over all sequences (`cutoffTest`:
+    -- at least that proportion, or at least one gap for a cutoff of 0); every qualifying site is removed,
+    -- or with `ends` only those of the maximal qualifying runs at the start and at the end; reported:
+    -- the lengths of these two runs, the kept and the removed positions
+    if !b.isAlign then (some b, "na") else
+    if b.rows = [] then (some b, sitesStatus 0 0 [] []) else
+    let L := b.length.toNat
+    let q : List Bool := (List.range L).map fun j =>
+      cutoffTest num den (b.rows.filter fun r => r.2[j]? == some GAP).length b.rows.length
+    let lead := (q.takeWhile id).length
+    let trail := (q.reverse.takeWhile id).length
+    let gone (i : Nat) : Bool := q.getD i false && (!ends || i < lead || i ≥ L - trail)
+    let kept := (List.range L).filter fun i => !gone i
+    let removed := (List.range L).filter gone
+    (some { b with rows := b.rows.map fun r => (r.1, kept.filterMap fun j => r.2[j]?) },
+     sitesStatus lead trail kept removed)
 
 end Gv.Spec
